@@ -147,6 +147,53 @@ def sessionS : Nat → Nat → BState → SBuf → List Bytes → Term → List 
       | 0 => [it]
       | e + 1 => it :: sessionS fuel e σ' b' cs' term
 
+/-! ## transports on which single reads fail recoverably
+
+A read that fails once (time-out, `WouldBlock`, interrupted) and works again later is the same
+script in *pieces*: the piece before the failure ends in that error as its terminal condition; the
+call that reports the failure leaves the connection state from which the caller's next call goes on
+with the next piece. `recvRetryA` is one *logical* receive: the caller calls again after every
+reported read failure, any number of times. -/
+
+/-- a piece of a script: chunks, then how this piece ends -/
+abbrev Piece := List Bytes × Term
+
+/-- one logical `receive` of a caller that retries after a failed read. Returns the item, the
+receive buffer, the builder state, and what is left of the script (rest of the current piece, its
+terminal condition, later pieces). -/
+def recvRetryA (σ : BState) (buf : Bytes) (cs : List Bytes) (t : Term) :
+    List Piece → Item × Bytes × BState × List Bytes × Term × List Piece
+  | [] => ((recvLoopA σ buf cs t).1, (recvLoopA σ buf cs t).2.1, (recvLoopA σ buf cs t).2.2.2,
+           (recvLoopA σ buf cs t).2.2.1, t, [])
+  | p :: more =>
+    match recvLoopA σ buf cs t with
+    | (.io _, buf', _, σ') => recvRetryA σ' buf' p.1 p.2 more      -- the failed read is reported; the caller calls again
+    | (it, buf', cs', σ') => (it, buf', σ', cs', t, p :: more)
+
+/-- a session of logical receives (see `sessionA`) -/
+def sessionRetryA : Nat → Nat → BState → Bytes → List Bytes → Term → List Piece → List Item
+  | 0, _, _, _, _, _, _ => []
+  | fuel + 1, extra, σ, buf, cs, t, more =>
+    match recvRetryA σ buf cs t more with
+    | (.resp r, buf', σ', cs', t', more') => .resp r :: sessionRetryA fuel extra σ' buf' cs' t' more'
+    | (it, buf', σ', cs', t', more') =>
+      match extra with
+      | 0 => [it]
+      | e + 1 => it :: sessionRetryA fuel e σ' buf' cs' t' more'
+
+/-- the script without the failures: all chunks in order … -/
+def flatScript (cs : List Bytes) (more : List Piece) : List Bytes := cs ++ more.flatMap (·.1)
+
+/-- … ending the way the last piece ends -/
+def lastTerm (t : Term) : List Piece → Term
+  | [] => t
+  | p :: more => lastTerm p.2 more
+
+/-- every piece but the last ends in a (recoverable) read failure -/
+def IoChain : Term → List Piece → Prop
+  | _, [] => True
+  | t, p :: more => (∃ k, t = .ioerr k) ∧ IoChain p.2 more
+
 /-! ## connect -/
 
 inductive ConnectResult where
